@@ -10,7 +10,7 @@ PROPS = {"C14": dict(
           "simultaneous requests, restarts and later list pulls; requests drawn relative to the recorded state over every defect kind "
           "(origin, signature block, old size, proof, header, checkpoint text, structure) with Lock.Replace (applied / not applied) and "
           "checkpoint-upload faults; non-trivial = a fork or a stale old size presented after >= 1 successful update, or two simultaneous "
-          "defect-free updates from the same recorded size; distinct = hash of the step list"),
+          "defect-free updates from the same recorded size; distinct = hash of the step list; also: checkpoints signed by the key of another log the witness knows"),
     assumptions=["vfref Merkle tree and note parser are correct", "SHA-256 collision resistance (the right consistency proof is unique)",
                  "crypto/ed25519 and filippo.io/mldsa verification are correct",
                  "the harness lock store is a linearizable compare-and-swap register; a failed Replace took effect entirely or not at all"],
